@@ -832,6 +832,24 @@ static Node *compute_vla_size(Type *ty, Token *tok) {
   return new_binary(ND_COMMA, node, expr, tok);
 }
 
+// The variable that holds the size of a VLA type exists only after
+// compute_vla_size() has generated the code that sets it, which happens
+// for block-scope declarations and sizeof operands. A variably modified
+// type written elsewhere (file scope, a cast, a static or extern object)
+// has none.
+static Node *new_vla_size_node(Type *ty, Token *tok) {
+  if (!ty->vla_size)
+    error_tok(tok, "variable-length array type is not supported here");
+  return new_var_node(ty->vla_size, tok);
+}
+
+static bool is_variably_modified(Type *ty) {
+  for (; ty; ty = ty->base)
+    if (ty->kind == TY_VLA)
+      return true;
+  return false;
+}
+
 static Node *new_alloca(Node *sz) {
   Node *node = new_unary(ND_FUNCALL, new_var_node(builtin_alloca, sz->tok), sz->tok);
   node->func_ty = builtin_alloca->ty;
@@ -859,6 +877,8 @@ static Node *declaration(Token **rest, Token *tok, Type *basety, VarAttr *attr) 
 
     if (attr && attr->is_static) {
       // static local variable
+      if (ty->kind == TY_VLA)
+        error_tok(ty->name, "variable-length array with static storage duration");
       Obj *var = new_anon_gvar(ty);
       var->is_tls = attr->is_tls;
       if (attr->align)
@@ -2633,7 +2653,7 @@ static Node *new_add(Node *lhs, Node *rhs, Token *tok) {
 
   // VLA + num
   if (lhs->ty->base->kind == TY_VLA) {
-    rhs = new_binary(ND_MUL, rhs, new_var_node(lhs->ty->base->vla_size, tok), tok);
+    rhs = new_binary(ND_MUL, rhs, new_vla_size_node(lhs->ty->base, tok), tok);
     return new_binary(ND_ADD, lhs, rhs, tok);
   }
 
@@ -2656,7 +2676,7 @@ static Node *new_sub(Node *lhs, Node *rhs, Token *tok) {
 
   // VLA - num
   if (lhs->ty->base->kind == TY_VLA && is_integer(rhs->ty)) {
-    rhs = new_binary(ND_MUL, rhs, new_var_node(lhs->ty->base->vla_size, tok), tok);
+    rhs = new_binary(ND_MUL, rhs, new_vla_size_node(lhs->ty->base, tok), tok);
     add_type(rhs);
     Node *node = new_binary(ND_SUB, lhs, rhs, tok);
     node->ty = lhs->ty;
@@ -2679,7 +2699,7 @@ static Node *new_sub(Node *lhs, Node *rhs, Token *tok) {
     if (lhs->ty->base->kind == TY_VLA) {
       // The row size is only known at run time. It is an unsigned long
       // variable; divide as signed so that q - p can be negative.
-      Node *sz = new_cast(new_var_node(lhs->ty->base->vla_size, tok), ty_long);
+      Node *sz = new_cast(new_vla_size_node(lhs->ty->base, tok), ty_long);
       return new_binary(ND_DIV, node, sz, tok);
     }
     return new_binary(ND_DIV, node, new_num(lhs->ty->base->size, tok), tok);
@@ -3366,7 +3386,7 @@ static Node *primary(Token **rest, Token *tok) {
     Node *node = unary(rest, tok->next);
     add_type(node);
     if (node->ty->kind == TY_VLA)
-      return new_var_node(node->ty->vla_size, tok);
+      return new_vla_size_node(node->ty, tok);
     return new_ulong(node->ty->size, tok);
   }
 
@@ -3639,6 +3659,8 @@ static Token *global_variable(Token *tok, Type *basety, VarAttr *attr) {
     Type *ty = declarator(&tok, tok, basety);
     if (!ty->name)
       error_tok(ty->name_pos, "variable name omitted");
+    if (is_variably_modified(ty))
+      error_tok(ty->name, "variably modified type is not allowed in this declaration");
 
     Obj *var = new_gvar(get_ident(ty->name), ty);
     var->is_definition = !attr->is_extern;
